@@ -21,6 +21,15 @@ pub fn main() -> i32 {
             Ok(art) => println!("{:#?}", art.ast),
             Err(iart) => println!("ERR {:?}", iart.errors),
         },
+        "fp" => match crate::props::c10::fingerprint(&src) {
+            Ok(f) => println!("{}", vkit::util::hash_str(&f)),
+            Err(e) => println!("ERR {e}"),
+        },
+        "c10src" => {
+            let v: serde_json::Value = serde_json::from_str(&src).unwrap();
+            let case: crate::props::c10::Case = serde_json::from_value(v["case"].clone()).unwrap();
+            println!("{}", crate::props::c10::rewritten(&case));
+        }
         "parse1" => match SimpleParser::parse(src) {
             Ok(art) => println!("{}", art.ast),
             Err(iart) => println!("ERR {:?}", iart.errors),
